@@ -211,6 +211,21 @@ func (g *schemaGen) schemaWithTables(name string, n int) *schema.Schema {
 // changesFor builds a change set over the schema: create all tables, plus some modifications/drops.
 func (g *schemaGen) changesFor(s *schema.Schema) []schema.Change {
 	var cs []schema.Change
+	if g.cfg.Dialect == "postgres" {
+		// stand-alone enum types created / dropped / extended beside the tables (their names are as nasty as
+		// any other identifier)
+		for k := 0; k < g.r.Intn(3); k++ {
+			en := &schema.EnumType{T: g.ident("e_"), Values: []string{"a", "b"}, Schema: s}
+			switch g.r.Intn(3) {
+			case 0:
+				cs = append(cs, &schema.AddObject{O: en})
+			case 1:
+				cs = append(cs, &schema.DropObject{O: en})
+			default:
+				cs = append(cs, &schema.ModifyObject{From: en, To: &schema.EnumType{T: en.T, Values: []string{"a", "b", "c"}, Schema: s}})
+			}
+		}
+	}
 	for _, t := range s.Tables {
 		switch g.r.Intn(6) {
 		case 0:
